@@ -99,9 +99,9 @@ impl Watch {
 const PAT_ALPHA: [&str; 17] = [
     "i", "?", "*", "\"", "'", "=", "<", ">", ".", "-", "1", "a", "A", "é", "(", "\\", " ",
 ];
-const COND_ALPHA: [&str; 28] = [
+const COND_ALPHA: [&str; 31] = [
     "a", "n", "d", "o", "r", "t", "l", "f", "i", "s", " ", "\t", "(", ")", ",", "=", "<", ">", "-",
-    ".", "1", "é", "½", "[", "]", "#", "_", "A",
+    ".", "1", "é", "½", "[", "]", "#", "_", "A", "\u{b}", "\n", "\u{a0}",
 ];
 const TOKENS: [&str; 21] = [
     "A", "B", "and ", "or ", "not ", "(", ")", "all(", "of(", "int(", "flt(", "str(", "not(", "1", "1.5",
@@ -581,6 +581,12 @@ pub fn run(tier: Tier) -> i32 {
             format!("{}a", "(".repeat(64)),
             format!("a{}", ")".repeat(2_000)),
             "a\u{0}b".into(),
+            "A\u{b}and\u{c}B".into(),
+            "A\rand\nB".into(),
+            "\u{b}".into(),
+            "\u{c}A".into(),
+            "A\u{2028}and\u{2029}B".into(),
+            "A\u{3000}and B".into(),
             "\u{feff}A".into(),
             "A\u{85}and B".into(),
             "A\u{a0}and\u{a0}B".into(),
